@@ -24,8 +24,8 @@ INFOS = ['', 'info']
 
 
 # thorough tier: coverage-guided campaigns on top of the random ones
-ATHERIS = [{'impl': 'py', 'n': 20000, 'name': 'py-atheris'},
-           {'impl': 'c', 'n': 20000, 'name': 'c-atheris'}]
+ATHERIS = [{'impl': 'py', 'n': 6000, 'name': 'py-atheris'},
+           {'impl': 'c', 'n': 6000, 'name': 'c-atheris'}]
 
 
 def configs(tier, seed):
